@@ -165,27 +165,50 @@ def rdf11_statements(r, g: genmod.Gen, n: int, arity: int) -> list:
     return out
 
 
-def ref_stream(ctx, rdf11: bool = False, phys: int | None = None, nd: bool | None = None):
+def ref_stream(ctx, rdf11: bool = False, phys: int | None = None, nd: bool | None = None, churn: bool | None = None,
+               edge: bool | None = None):
     """One valid stream from the reference encoder -> dict(frames, events, bytes...) or None."""
     r = ctx.rng
     phys = phys or r.choice([1, 2, 3])
     ar = 3 if phys == 1 else 4
+    if churn is None:
+        churn = r.random() < 0.3
     g = genmod.Gen(r, nprefix=r.randint(1, 5), nname=r.randint(2, 8), ndt=r.randint(1, 3))
+    if churn:
+        # many namespaces sharing few local names: with tables as small as one statement needs, slots are
+        # re-assigned all the time while the same (prefix id, name id) pairs keep coming back with other contents
+        g = genmod.Gen(r, nprefix=r.randint(4, 7), nname=r.randint(2, 3), ndt=r.randint(1, 2))
     if rdf11:
         # BNODES with empty labels / empty IRIs are not RDF 1.1 material for rdflib
-        stmts = rdf11_statements(r, g, r.choice([1, 2, 4, 8, 15]), ar)
+        stmts = rdf11_statements(r, g, r.choice([6, 10, 15] if churn else [1, 2, 4, 8, 15]), ar)
     else:
-        stmts = g.statements(r.choice([1, 2, 4, 8, 15]), ar)
+        stmts = g.statements(r.choice([6, 10, 15] if churn else [1, 2, 4, 8, 15]), ar)
     need = genmod.table_need(stmts)
     maxd = 0 if not any(need[2:]) and r.random() < 0.3 else r.choice([max(1, need[2]), max(1, need[2]) + 1, 32, 4096])
     maxp = r.choice([0, max(1, need[1]), max(1, need[1]) + 1, 150])
     maxn = r.choice([max(8, need[0] + need[1]), max(8, need[0] + need[1]) + 2, 4000, 4096])
+    if churn:
+        maxp = r.choice([max(1, need[1]), max(1, need[1]), max(1, need[1]) + 1, 0])
+        maxn = r.choice([max(8, need[0] + need[1]), 4000])
     if nd is None:
         nd = r.random() < 0.3
     version = 2 if nd else r.choice([0, 1, 1, 2])
     logical = r.choice([0, {1: 1, 2: 2, 3: 2}[phys], {1: 3, 2: 4, 3: 4}[phys]])
+    # every fourth stream: freely chosen slots are the highest free ones, so the ids on the wire sit at the
+    # top edge of the declared sizes (4096, 4095, ... in a full-size table)
+    edge_p = r.choice([0.0, 0.0, 0.0, 0.9])
+    if edge is not None:
+        edge_p = 0.9 if edge else 0.0
+    if edge:
+        maxn = 4096
+    elif edge_p and r.random() < 0.6:
+        maxn = r.choice([4096, 4096, maxn])
+    if edge_p and churn:
+        # ... with room for every namespace, so that one local name (in a slot at the top edge) is
+        # referred to under several resident prefix slots, back to back
+        maxp = r.choice([maxp, 8, 150])
     enc = refenc.RefEncoder(r, phys, maxn, maxp, maxd, version=version, logical=logical,
-                            name=r.choice(["", "näme"]), gen=not rdf11, star=not rdf11)
+                            name=r.choice(["", "näme"]), gen=not rdf11, star=not rdf11, edge_p=edge_p, natural_split_p=0.9 if churn else 0.0)
     ns = g.namespaces(r.randint(0, 2)) if nd else []
     try:
         enc.encode(stmts, ns)
